@@ -10,7 +10,6 @@ import (
 	"os"
 	"strings"
 
-	_ "github.com/sergeii/swat4master/verifharness/internal/c02"
 	"github.com/sergeii/swat4master/verifharness/internal/core"
 	"github.com/sergeii/swat4master/verifharness/internal/facts"
 )
